@@ -9,6 +9,7 @@ import Mathlib.Tactic.FieldSimp
 import Mathlib.Tactic.SplitIfs
 import Mathlib.Tactic.Positivity
 import Mathlib.Data.Rat.Floor
+import RQ.Lemmas.WorldB
 
 namespace RQ.Props.C01
 open RQ.Q
@@ -936,5 +937,56 @@ example : (([AOp.pendingNew 2105, .trade 1 ⟨false, 1, 0, 1, true, 100⟩ 10 tr
     .bar (fun _ => some 11), .trade 1 ⟨false, 1, 0, 1, true, 100⟩ 10 true ⟨11, 100, .close, 6.1⟩ none, .deposit 1000 none] : List AOp).foldl step
     ⟨100000, 0, 0, [], 0, 0, 0, []⟩).totalCash = 100000 - 2100 - 5 + 1100 - 6.1 + 1000 := by
   decide +kernel
+
+
+/-! ### whole runs of the composed world (`RQ/Model/World.lean`) -/
+
+/-- the world's account operations in the vocabulary of this file (`touch`, the creation of an empty pair of positions by the
+matcher's `calc_close_today_amount`, has no counterpart: it is a frame operation, see `touch_frame`) -/
+def toAOp : AcctOp → Option AOp
+  | .pendingNew init => some (.pendingNew init)
+  | .unsolicited q f init => some (.unsolicited q f init)
+  | .trade ins cfg cl isLong t o => some (.trade ins cfg cl isLong t o)
+  | .touch _ _ _ => none
+  | .bar price => some (.bar price)
+  | .beforeTrading i => some (.beforeTrading i)
+  | .settlement i => some (.settlement i)
+  | .deposit amt recv => some (.deposit amt recv)
+  | .finance amt => some (.finance amt)
+
+/-- the world applies exactly the operations the theorems of this file are about -/
+theorem stepOp_eq_step (a : Acct) (op : AcctOp) (aop : AOp) (h : toAOp op = some aop) : a.stepOp op = step a aop := by
+  cases op with
+  | touch ins cfg cl => simp [toAOp] at h
+  | deposit amt recv =>
+    simp only [toAOp, Option.some.injEq] at h
+    subst h
+    simp only [Acct.stepOp, step]
+    cases a.depositWithdraw amt recv <;> rfl
+  | pendingNew init => simp only [toAOp, Option.some.injEq] at h; subst h; rfl
+  | unsolicited q f init => simp only [toAOp, Option.some.injEq] at h; subst h; rfl
+  | trade ins cfg cl isLong t o => simp only [toAOp, Option.some.injEq] at h; subst h; rfl
+  | bar price => simp only [toAOp, Option.some.injEq] at h; subst h; rfl
+  | beforeTrading i => simp only [toAOp, Option.some.injEq] at h; subst h; rfl
+  | settlement i => simp only [toAOp, Option.some.injEq] at h; subst h; rfl
+  | finance amt => simp only [toAOp, Option.some.injEq] at h; subst h; rfl
+
+/-- creating an empty pair of positions touches neither the cash balance nor the reserve nor any quantity -/
+theorem touch_frame (a : Acct) (ins : Nat) (cfg : InsCfg) (cl : R) :
+    (a.stepOp (.touch ins cfg cl)).totalCash = a.totalCash ∧ (a.stepOp (.touch ins cfg cl)).frozen = a.frozen ∧
+    ∀ ins' isLong', qtyOf (a.stepOp (.touch ins cfg cl)) ins' isLong' = qtyOf a ins' isLong' := by
+  refine ⟨(getOrCreate_cash a ins cfg cl).1, (getOrCreate_cash a ins cfg cl).2, ?_⟩
+  · intro ins' isLong'
+    rw [qtyOf_eq, qtyOf_eq]
+    exact qtyH_getOrCreate a ins cfg cl ins' isLong'
+
+/-- **whole runs refine the account model**: whatever the strategy does and whatever the market is, each account at the end of a
+run of the composed world is the account at its start after a LIST OF ACCOUNT OPERATIONS — the operations the run logged for it,
+in order.  Everything this file proves for arbitrary operation lists (`cash_ledger`, the quantity ledger, the value formula) therefore
+holds at every point of every run. -/
+theorem world_run_is_operation_list (w : World) (ins : List WIn) (k : Nat) :
+    ∃ ops : List AcctOp, (w.run ins).1.pf.accounts[k]? = (w.pf.accounts[k]?).map (fun a => ops.foldl Acct.stepOp a) := by
+  obtain ⟨newLog, -, -, h⟩ := RQ.Lemmas.WorldB.run_refines w ins
+  exact ⟨RQ.Lemmas.WorldB.opsOf k newLog, h k⟩
 
 end RQ.Props.C01
